@@ -164,7 +164,10 @@ def user_body(w, pid, ops):
                 w.rec('S', pid, i, None, 'intr', describe_cause(w, e.cause), 'sleep')
             continue
         if k == 'use':
-            yield from use(w, pid, i, op)
+            try:
+                yield from use(w, pid, i, op)
+            except _Abandon:
+                return          # the process ends while it still holds the slot (somebody else may release it, or nobody)
         elif k in ('put', 'get'):
             yield from putget(w, pid, i, op)
 
@@ -216,6 +219,9 @@ def use(w, pid, i, op):
                     continue
                 raise
         w.rec('S', pid, i, rid, 'granted', req.usage_since)
+        if op.get('abandon'):
+            w.rec('S', pid, i, rid, 'abandoned')
+            raise _Abandon()
         phase = 'hold'
         yield env.timeout(op.get('hold', 1))
         phase = 'done'
@@ -262,6 +268,10 @@ def use(w, pid, i, op):
 
 
 class _GiveUp(Exception):
+    pass
+
+
+class _Abandon(Exception):
     pass
 
 
@@ -430,6 +440,8 @@ def gen_resource_case(rng, tier):
                       'patience': rng.choice([None, None, None, 0, 1, 2, 0.5]), 'hold': rng.choice(pool),
                       'style': rng.choice(['manual', 'manual', 'with']), 'extra': [],
                       'on_intr': rng.choice(['leave', 'leave', 'rewait', 'release_rewait']), 'exit_exc': rng.random() < 0.5}
+                if rng.random() < 0.04:
+                    op['abandon'] = True         # the user process ends without ever releasing
                 if rng.random() < 0.15:
                     op['extra'].append('double')
                 if rng.random() < 0.08:
